@@ -22,6 +22,9 @@ import (
 type histScenario struct {
 	Seq   []string `json:"templates"`
 	Limit int      `json:"limit"` // -1 = nil
+	// Hold: object b carries a foreign finalizer from the first rollout on, so the first
+	// revision's teardown never finishes and it stays terminating after it was pruned
+	Hold bool `json:"hold"`
 }
 
 var histTemplates = map[string][]string{"T1": {"a", "b"}, "T2": {"a", "c"}, "T3": {"a", "d"}}
@@ -69,6 +72,9 @@ func runHistory(sc histScenario) (findings []world.Finding, passes int, trace []
 		findings = append(findings, world.Finding{Monitor: "history", Identity: "no-quiescence", Message: "the system did not become quiescent within 40 rounds after " + step})
 	}
 	settle("creation with " + sc.Seq[0])
+	if sc.Hold {
+		osw.AddFinalizer(w, world.KeyOf("Widget", world.NS, "b"), osw.HoldFinalizer)
+	}
 	for i, t := range sc.Seq[1:] {
 		x++
 		_ = x
@@ -94,6 +100,11 @@ func histScenarios(quick bool) []histScenario {
 			for _, l := range []int{-1, 0, 1, 2} {
 				out = append(out, histScenario{Seq: append([]string{}, seq...), Limit: l})
 			}
+			if len(seq) <= 5 {
+				for _, l := range []int{0, 1} {
+					out = append(out, histScenario{Seq: append([]string{}, seq...), Limit: l, Hold: true})
+				}
+			}
 		}
 		if len(seq) == maxLen {
 			return
@@ -110,7 +121,7 @@ func histScenarios(quick bool) []histScenario {
 
 func runHistories(o checks.Opts) *report.Report {
 	rep := report.New("C07", "histories")
-	rep.Rule = "every sequence of 2..5 (thorough: ..7) template edits among T1{a,b}, T2{a,c}, T3{a,d} (rollbacks included) x revisionHistoryLimit nil/0/1/2, on ONE long-lived operator process: after each edit all controllers run fairly to quiescence (workloads becoming ready, garbage collector, old revisions archived and pruned); the C07 monitor on every ObjectDeployment pass and the revision invariant (unique, greater than all previous) on every state; distinct = (limit, number of ObjectSets at the end)"
+	rep.Rule = "every sequence of 2..5 (thorough: ..7) template edits among T1{a,b}, T2{a,c}, T3{a,d} (rollbacks included) x revisionHistoryLimit nil/0/1/2 (and, for limit 0/1, a variant in which object b is held by a foreign finalizer so that the pruned first revision stays terminating), on ONE long-lived operator process: after each edit all controllers run fairly to quiescence (workloads becoming ready, garbage collector, old revisions archived and pruned); the C07 monitor on every ObjectDeployment pass and the revision invariant (unique, greater than all previous) on every state; distinct = (limit, number of ObjectSets at the end)"
 	scs := histScenarios(o.Quick())
 	rep.Bounds["histories"] = len(scs)
 	for i, sc := range scs {
